@@ -557,6 +557,11 @@ def rel3(ctx, c):
                     "the backward estimate sums statements [rel%+d, this%+d) plus %d, but the displacement is measured from the END of this instruction "
                     "(ind_sz + 1 bytes, i.e. 3 or 4): the estimate can be %d byte(s) too small and the 8-bit form chosen for -129/-130"
                     % (w_lo, w_hi, cst, -margin), where)
+    from ..model import one_shot_reuse
+    for nm_, b_, uses_ in one_shot_reuse(fn.node):
+        c.finding("determine_pcr_relative_sizes:one-shot", "`%s` is a one-shot iterator consumed %d times" % (nm_, len(uses_)),
+                  "determine_pcr_relative_sizes binds `%s = %s` and reads it at %d places: the first consumer exhausts it and the later sums see nothing, so the estimate they "
+                  "accumulate is too small and the 8-bit form can be chosen for a displacement that needs 16" % (nm_, U(b_.value)[:50], len(uses_)), repo.loc(fn, b_))
     c.floor("determine_pcr_relative_sizes paths", n, 4)
     # TERM-1 (shared): every normal exit has fixed the size
     if unfixed:
